@@ -1072,15 +1072,22 @@ class Vector():
 		if self._dtype.kind is target_kind:
 			return
 		
-		# Allow numeric promotions: int -> float, float -> complex
-		if target_kind is float and self._dtype.kind is int:
+		# Allow numeric promotions: bool -> int -> float -> complex
+		if target_kind is int and self._dtype.kind is bool:
+			old_tuple_id = id(self._underlying)
+			new_tuple = tuple(int(x) if x is not None else None for x in self._underlying)
+			_ALIAS_TRACKER.unregister(self, old_tuple_id)
+			self._underlying = new_tuple
+			_ALIAS_TRACKER.register(self, id(new_tuple))
+			self._dtype = DataType(int, nullable=self._dtype.nullable)
+		elif target_kind is float and self._dtype.kind in (int, bool):
 			old_tuple_id = id(self._underlying)
 			new_tuple = tuple(float(x) if x is not None else None for x in self._underlying)
 			_ALIAS_TRACKER.unregister(self, old_tuple_id)
 			self._underlying = new_tuple
 			_ALIAS_TRACKER.register(self, id(new_tuple))
 			self._dtype = DataType(float, nullable=self._dtype.nullable)
-		elif target_kind is complex and self._dtype.kind in (int, float):
+		elif target_kind is complex and self._dtype.kind in (int, float, bool):
 			old_tuple_id = id(self._underlying)
 			new_tuple = tuple(complex(x) if x is not None else None for x in self._underlying)
 			_ALIAS_TRACKER.unregister(self, old_tuple_id)
